@@ -77,3 +77,393 @@ Lemma set_state_eff w ns h : RsatOk HasEff (set_state w ns h).
 Proof. unfold set_state. destruct (settle w h) as [w1|n w1]; cbn [bind]; [apply switch_eff|exact I]. Qed.
 Lemma set_state_post w0 w ns h : RsatOk (post w0) (set_state w ns h).
 Proof. eapply RsatOk_weaken; [|apply set_state_eff]. intros w1 H. left. exact H. Qed.
+
+(* ---------------------------------------------------------------- the callbacks that leave the wait alone, or go through set_state *)
+Section Env.
+Variable cmds : cid -> cmdinfo.
+Variable plan : nat -> wplan.
+
+Lemma filter_keeps_exp_timers c ts wh s t :
+  (forall u, c <> CbExpTimer u) -> In (wh, s, CbExpTimer t) ts -> In (wh, s, CbExpTimer t) (filter (fun e : Z * nat * cb => negb (cb_eqb (snd e) c)) ts).
+Proof.
+  intros N H. apply filter_In. split; [exact H|]. cbn. destruct c; try reflexivity. destruct (Nat.eqb t t0) eqn:E; [|reflexivity].
+  exfalso. apply (N t0). reflexivity.
+Qed.
+
+Lemma send_cmd_post w c r : RsatOk (post w) (send_cmd_ w c r).
+Proof.
+  unfold send_cmd_. destruct (state (cx w)); try apply set_state_post.
+  - apply RsatOk_post_assert_bind. intros w1. apply RsatOk_post_bind.
+    + apply set_state_post.
+    + intros w2. cbn. apply post_keep. keep_tac.
+  - apply RsatOk_post_assert_bind. intros w1. cbn. apply post_keep. keep_tac.
+Qed.
+
+Lemma dequeue_keep q : forall w, keep w (fst (dequeue w q)).
+Proof.
+  induction q as [|[[p s] c] q IH]; intros w; cbn [dequeue]; [keep_tac|].
+  destruct (fut_done (fut_of w c)); [apply IH|keep_tac].
+Qed.
+
+Lemma check_buffer_post w : RsatOk (post w) (check_buffer cmds w).
+Proof.
+  unfold check_buffer. apply RsatOk_post_assert_bind. intros w1.
+  destruct (match curfut (cx w1) with Some f => negb (fut_done (fut_of w1 f)) | None => false end); [apply post_refl|].
+  pose proof (dequeue_keep (que (cx w1)) w1) as D.
+  destruct (dequeue w1 (que (cx w1))) as [w2 oc]. cbn [fst] in D.
+  destruct oc as [k|].
+  - eapply RsatOk_post_trans; [apply post_keep; exact D|]. eapply RsatOk_post_trans; [|apply send_cmd_post]. apply post_keep. keep_tac.
+  - cbn. apply post_keep. eapply keep_trans; [exact D|]. keep_tac.
+Qed.
+
+Lemma pkt_rcvd_post w p : RsatOk (post w) (pkt_rcvd cmds w p).
+Proof.
+  unfold pkt_rcvd. destruct (state (cx w)).
+  - apply RsatOk_post_assert.
+  - apply RsatOk_post_assert.
+  - destruct (sent (cx w)) as [k|]; [|exact I].
+    destruct (match rx_hdr (cmds k) with Some h => Nat.eqb (p_hdr p) h && p_dst_ok p | None => false end); [apply set_state_post|].
+    destruct (negb (Nat.eqb (p_hdr p) (tx_hdr (cmds k)))); [apply post_refl|].
+    destruct (rx_hdr (cmds k)); apply set_state_post.
+  - destruct (sent (cx w)) as [k|]; [|exact I]. destruct (echo (cx w)) as [e|]; [|exact I].
+    destruct (Nat.eqb (p_hdr p) (tx_hdr (cmds k)) && Nat.eqb (p_src p) (p_src e)); [apply post_refl|].
+    destruct (rx_hdr (cmds k)) as [h|]; [|exact I].
+    destruct (null_ok (cmds k) p || Nat.eqb (p_hdr p) h); [apply set_state_post|apply post_refl].
+Qed.
+
+Lemma caller_start_post w c : RsatOk (post w) (caller_start cmds w c).
+Proof.
+  unfold caller_start. destruct (state (cx w)) eqn:S; cbn [RsatOk]; try (apply post_keep; keep_tac);
+    (destruct (Nat.leb BUF_SIZE (length (que (cx w)))); cbn [RsatOk]; apply post_keep; unfold keep; cbn; rewrite ?S; cbn;
+     repeat split; try reflexivity; intros; try (apply in_or_app; left); try assumption; try (apply in_or_app; left; assumption)).
+Qed.
+
+Lemma caller_timer_post w c : RsatOk (post w) (caller_timer w c).
+Proof.
+  unfold caller_timer. destruct (aget CNone c (callers w)); try apply post_refl.
+  destruct (fut_done (fut_of (set_caller w c CTimedOut) c)); cbn; apply post_keep; keep_tac.
+Qed.
+
+Lemma caller_cancel_post w c : RsatOk (post w) (caller_cancel w c).
+Proof.
+  unfold caller_cancel. destruct (aget CNone c (callers w)); try apply post_refl; try (cbn; apply post_keep; keep_tac).
+  destruct (fut_done (fut_of (set_caller w c CCancelled) c)); cbn; apply post_keep; keep_tac.
+Qed.
+
+Lemma conn_post w : RsatOk (post w) (conn_made w) /\ RsatOk (post w) (conn_lost w).
+Proof. unfold conn_made, conn_lost. split; destruct (state (cx w)); try apply post_refl; apply set_state_post. Qed.
+
+Lemma do_write_post w n c : RsatOk (post w) (do_write cmds plan w n c).
+Proof.
+  unfold do_write. destruct (w_fail (plan n)).
+  { unfold fail_write. destruct (cur (cx w)) as [k|]; [|apply post_refl]. destruct (Nat.eqb k c); [|apply post_refl]. apply set_state_post. }
+  cbn. apply post_keep. destruct (w_echo (plan n)); destruct (w_rply (plan n)); destruct (rx_hdr (cmds c)); unfold keep; cbn;
+    repeat split; try reflexivity; intros; auto; repeat (apply in_or_app; left); assumption.
+Qed.
+End Env.
+
+(* ---------------------------------------------------------------- what is pending stays pending; the expiry task's own steps *)
+Lemma keep_alive w w' : keep w w' -> Alive w -> Alive w'.
+Proof.
+  intros (S & E & X & R & T) A. unfold Alive, AliveL in *. rewrite S. intros Hs. destruct (A Hs) as [[b Hb]|(t & Et & Lt)].
+  - left. exists b. apply R, Hb.
+  - right. exists t. split; [congruence|]. unfold live in *. rewrite X.
+    destruct (aget EDone t (exps w)); try exact Lt; try (apply R, Lt).
+    destruct Lt as [L1|(wh & s & L2)]; [left; apply R, L1|right; exists wh, s; apply T, L2].
+Qed.
+Lemma post_alive w w' : post w w' -> Alive w -> Alive w'.
+Proof. intros [H|K] A; [apply HasEff_Alive, H|eapply keep_alive; eassumption]. Qed.
+Lemma RsatOk_post_alive w r : Alive w -> RsatOk (post w) r -> RsatOk Alive r.
+Proof. intros A. apply RsatOk_weaken. intros w1 P. eapply post_alive; eassumption. Qed.
+
+Definition irrelevant (c : cb) : Prop := match c with CbEffect _ | CbExpStart _ | CbExpTimer _ | CbExpWake _ => False | _ => True end.
+Lemma drop_irrelevant c r w : irrelevant c -> AliveL (c :: r) w -> AliveL r w.
+Proof.
+  intros I A Hs. destruct (A Hs) as [[b [Hb|Hb]]|(t & Et & Lt)].
+  - subst c. destruct I.
+  - left. exists b. exact Hb.
+  - right. exists t. split; [exact Et|]. unfold live in *. destruct (aget EDone t (exps w)); try exact Lt.
+    + destruct Lt as [L|L]; [subst c; destruct I|exact L].
+    + destruct Lt as [[L|L]|L]; [subst c; destruct I|left; exact L|right; exact L].
+    + destruct Lt as [L|L]; [subst c; destruct I|exact L].
+Qed.
+
+Lemma not_sending_alive w : sending_state (state (cx w)) = false -> Alive w.
+Proof. intros H Hs. congruence. Qed.
+
+Lemma new_exp_alive w : Alive (new_exp w).
+Proof.
+  intros _. right. exists (next_tid w). split; [reflexivity|]. unfold live, new_exp. cbn. rewrite aget_aset, Nat.eqb_refl.
+  apply in_or_app. right. left. reflexivity.
+Qed.
+
+Section Env2.
+Variable cmds : cid -> cmdinfo.
+Variable plan : nat -> wplan.
+
+Lemma effect_state_alive w b : RsatOk Alive (effect_state cmds w b).
+Proof.
+  unfold effect_state. unfold assert at 1. destruct (is_sending_ok w); cbn [bind]; [|exact I].
+  destruct (if b then match cur (cx w) with Some k => send_cmd_ w k true | None => Crash 41 w end else Ok w) as [w2|n w2]; cbn [bind]; [|exact I].
+  destruct (state (cx w2)) eqn:S.
+  - cbn. apply not_sending_alive. rewrite S. reflexivity.
+  - cbn. apply not_sending_alive. cbn. rewrite S. reflexivity.
+  - cbn. apply new_exp_alive.
+  - destruct (cur (cx w2)) as [k|]; [|exact I].
+    destruct (negb (wfr (cmds k))); [|cbn; apply new_exp_alive].
+    destruct (echo (cx w2)); (eapply RsatOk_weaken; [apply HasEff_Alive|apply set_state_eff]).
+Qed.
+End Env2.
+
+Lemma alive_transfer L w w' :
+  AliveL L w -> state (cx w') = state (cx w) -> expiry (cx w') = expiry (cx w) ->
+  (forall b, In (CbEffect b) L -> In (CbEffect b) (ready w')) ->
+  (forall t, expiry (cx w) = Some t -> live L w t -> live (ready w') w' t) ->
+  Alive w'.
+Proof.
+  intros A S E F G Hs. rewrite S in Hs. destruct (A Hs) as [[b Hb]|(t & Et & Lt)].
+  - left. exists b. apply F, Hb.
+  - right. exists t. split; [congruence|]. apply G; assumption.
+Qed.
+
+Lemma in_cons_neq {A} (x y : A) l : In x (y :: l) -> x <> y -> In x l.
+Proof. intros [H|H] N; [congruence|exact H]. Qed.
+
+(* the expiry task's first step: about to start -> sleeping, its timer armed *)
+Lemma exp_start_alive w t : AliveL (CbExpStart t :: ready w) w -> RsatOk Alive (exp_start w t).
+Proof.
+  intros A. unfold exp_start. destruct (aget EDone t (exps w)) eqn:E.
+  - unfold assert. destruct (is_some (cur (cx w))); cbn [bind]; [|exact I].
+    destruct (is_sending_ok w); cbn [bind]; [|exact I]. destruct (Nat.ltb 0 (txc (cx w))); cbn [bind RsatOk]; [|exact I].
+    eapply alive_transfer; [exact A|reflexivity|reflexivity| |].
+    + intros b Hb. cbn. eapply in_cons_neq; [exact Hb|discriminate].
+    + intros t' Et Lt. unfold live in *. cbn. rewrite aget_aset. destruct (Nat.eqb t' t) eqn:Q.
+      * right. eexists _, _. apply in_or_app. right. left. apply Nat.eqb_eq in Q. subst t'. reflexivity.
+      * assert (N : t' <> t) by (apply Nat.eqb_neq; exact Q).
+        destruct (aget EDone t' (exps w)); try exact Lt.
+        -- eapply in_cons_neq; [exact Lt|congruence].
+        -- destruct Lt as [L|(wh & s & L)]; [left; eapply in_cons_neq; [exact L|discriminate]|right; exists wh, s; apply in_or_app; left; exact L].
+        -- eapply in_cons_neq; [exact Lt|discriminate].
+  - cbn. eapply alive_transfer; [exact A|reflexivity|reflexivity| |].
+    + intros b Hb. eapply in_cons_neq; [exact Hb|discriminate].
+    + intros t' Et Lt. unfold live in *. destruct (aget EDone t' (exps w)) eqn:E'; try exact Lt.
+      * eapply in_cons_neq; [exact Lt|]. intros [= Q]. subst t'. congruence.
+      * destruct Lt as [L|L]; [left; eapply in_cons_neq; [exact L|discriminate]|right; exact L].
+      * eapply in_cons_neq; [exact Lt|discriminate].
+  - cbn. eapply alive_transfer; [exact A|reflexivity|reflexivity| |].
+    + intros b Hb. eapply in_cons_neq; [exact Hb|discriminate].
+    + intros t' Et Lt. unfold live in *. destruct (aget EDone t' (exps w)) eqn:E'; try exact Lt.
+      * eapply in_cons_neq; [exact Lt|]. intros [= Q]. subst t'. congruence.
+      * destruct Lt as [L|L]; [left; eapply in_cons_neq; [exact L|discriminate]|right; exact L].
+      * eapply in_cons_neq; [exact Lt|discriminate].
+  - cbn. eapply alive_transfer; [exact A|reflexivity|reflexivity| |].
+    + intros b Hb. eapply in_cons_neq; [exact Hb|discriminate].
+    + intros t' Et Lt. unfold live in *. destruct (aget EDone t' (exps w)) eqn:E'; try exact Lt.
+      * eapply in_cons_neq; [exact Lt|]. intros [= Q]. subst t'. congruence.
+      * destruct Lt as [L|L]; [left; eapply in_cons_neq; [exact L|discriminate]|right; exact L].
+      * eapply in_cons_neq; [exact Lt|discriminate].
+  - cbn. eapply alive_transfer; [exact A|reflexivity|reflexivity| |].
+    + intros b Hb. eapply in_cons_neq; [exact Hb|discriminate].
+    + intros t' Et Lt. unfold live in *. destruct (aget EDone t' (exps w)) eqn:E'; try exact Lt.
+      * eapply in_cons_neq; [exact Lt|]. intros [= Q]. subst t'. congruence.
+      * destruct Lt as [L|L]; [left; eapply in_cons_neq; [exact L|discriminate]|right; exact L].
+      * eapply in_cons_neq; [exact Lt|discriminate].
+  - cbn. eapply alive_transfer; [exact A|reflexivity|reflexivity| |].
+    + intros b Hb. eapply in_cons_neq; [exact Hb|discriminate].
+    + intros t' Et Lt. unfold live in *. destruct (aget EDone t' (exps w)) eqn:E'; try exact Lt.
+      * eapply in_cons_neq; [exact Lt|]. intros [= Q]. subst t'. congruence.
+      * destruct Lt as [L|L]; [left; eapply in_cons_neq; [exact L|discriminate]|right; exact L].
+      * eapply in_cons_neq; [exact Lt|discriminate].
+Qed.
+
+(* its timer fires: sleeping -> woken, the wake-up scheduled *)
+Definition exp_timer (w : world) (t : nat) : R :=
+  match aget EDone t (exps w) with
+  | ESleeping o => Ok (call_soon (set_exp w t (EWoken o)) (CbExpWake t))
+  | _ => Ok w end.
+
+Ltac other_timer A E :=
+  cbn; eapply alive_transfer; [exact A|reflexivity|reflexivity| |];
+  [intros b Hb; eapply in_cons_neq; [exact Hb|discriminate]
+  |intros t' Et Lt; unfold live in *; destruct (aget EDone t' (exps _)) eqn:E'; try exact Lt;
+   [eapply in_cons_neq; [exact Lt|discriminate]
+   |destruct Lt as [L|L]; [left; eapply in_cons_neq; [exact L|]; intros [= Q]; subst t'; congruence|right; exact L]
+   |eapply in_cons_neq; [exact Lt|discriminate]]].
+
+Lemma exp_timer_alive w t : AliveL (CbExpTimer t :: ready w) w -> RsatOk Alive (exp_timer w t).
+Proof.
+  intros A. unfold exp_timer. destruct (aget EDone t (exps w)) eqn:E; try (other_timer A E).
+  cbn. eapply alive_transfer; [exact A|reflexivity|reflexivity| |].
+  - intros b Hb. cbn. apply in_or_app. left. eapply in_cons_neq; [exact Hb|discriminate].
+  - intros t' Et Lt. unfold live in *. cbn. rewrite aget_aset. destruct (Nat.eqb t' t) eqn:Q.
+    + apply in_or_app. right. left. apply Nat.eqb_eq in Q. subst t'. reflexivity.
+    + assert (N : t' <> t) by (apply Nat.eqb_neq; exact Q).
+      destruct (aget EDone t' (exps w)); try exact Lt.
+      * apply in_or_app. left. eapply in_cons_neq; [exact Lt|discriminate].
+      * destruct Lt as [L|L]; [left; apply in_or_app; left; eapply in_cons_neq; [exact L|congruence]|right; exact L].
+      * apply in_or_app. left. eapply in_cons_neq; [exact Lt|discriminate].
+Qed.
+
+Ltac other_wake A E :=
+  cbn; eapply alive_transfer; [exact A|reflexivity|reflexivity| |];
+  [intros b Hb; eapply in_cons_neq; [exact Hb|discriminate]
+  |intros t' Et Lt; unfold live in *; destruct (aget EDone t' (exps _)) eqn:E'; try exact Lt;
+   [eapply in_cons_neq; [exact Lt|discriminate]
+   |destruct Lt as [L|L]; [left; eapply in_cons_neq; [exact L|discriminate]|right; exact L]
+   |eapply in_cons_neq; [exact Lt|]; intros [= Q]; subst t'; congruence]].
+
+(* woken: it moves the state machine on -- a retry or giving up -- through set_state *)
+Lemma exp_wake_alive w t : AliveL (CbExpWake t :: ready w) w -> RsatOk Alive (exp_wake w t).
+Proof.
+  intros A. unfold exp_wake. destruct (aget EDone t (exps w)) as [| |old| | |] eqn:E; try (other_wake A E).
+  set (w1 := set_mult (set_exp w t ERunning) (Nat.min MULT_CAP (S old))). clearbody w1.
+  unfold assert at 1. destruct (is_sending_ok w1); cbn [bind]; [|exact I].
+  assert (G : RsatOk HasEff (if Nat.ltb (txc (cx w1)) (txl (cx w1)) then set_state w1 WantEcho HTimedOut else set_state w1 Idle HExpired))
+    by (destruct (Nat.ltb (txc (cx w1)) (txl (cx w1))); apply set_state_eff).
+  destruct (if Nat.ltb (txc (cx w1)) (txl (cx w1)) then set_state w1 WantEcho HTimedOut else set_state w1 Idle HExpired) as [w3|n w3]; cbn [bind]; [|exact I].
+  cbn in G. unfold assert. destruct (is_sending_ok w3); cbn [bind RsatOk]; [|exact I].
+  apply HasEff_Alive. destruct G as [b Hb]. exists b. exact Hb.
+Qed.
+
+(* ---------------------------------------------------------------- every callback; every run *)
+Definition AX (w w' : world) : Prop := exists l, trace w' = trace w ++ l /\ (forallb clean l = true -> Alive w').
+
+Lemma AX_of w r : Rsat (tpre w) r -> RsatOk Alive r -> RsatOk (AX w) r.
+Proof. destruct r as [w1|n w1]; cbn; [|intros _ _; exact I]. intros [l E] A. exists l. split; [exact E|intros _; exact A]. Qed.
+
+Lemma caller_wake_AX w c : Alive w -> RsatOk (AX w) (caller_wake w c).
+Proof.
+  intros A. unfold caller_wake. destruct (aget CNone c (callers w)).
+  - cbn. exists []. rewrite app_nil_r. split; [reflexivity|intros _; exact A].
+  - cbn. eexists. split; [reflexivity|]. intros _. eapply keep_alive; [|exact A].
+    unfold keep. cbn. repeat split; try reflexivity; auto. intros wh s t H. apply filter_keeps_exp_timers; [discriminate|exact H].
+  - assert (G : RsatOk (post w) (match cur (cx w) with Some k => if Nat.eqb k c then set_state w Idle HExpired else Ok w | None => Ok w end)).
+    { destruct (cur (cx w)) as [k|]; [|apply post_refl]. destruct (Nat.eqb k c); [apply set_state_post|apply post_refl]. }
+    assert (G2 : Rsat (tpre w) (match cur (cx w) with Some k => if Nat.eqb k c then set_state w Idle HExpired else Ok w | None => Ok w end)).
+    { destruct (cur (cx w)) as [k|]; [|apply tpre_refl]. destruct (Nat.eqb k c); [apply set_state_tpre|apply tpre_refl]. }
+    destruct (match cur (cx w) with Some k => if Nat.eqb k c then set_state w Idle HExpired else Ok w | None => Ok w end) as [w1|n w1]; cbn in *.
+    + destruct G2 as [l1 E1]. exists (l1 ++ [Done (now w1) c ErrSendFailed]). split; [change (trace w1 ++ [Done (now w1) c ErrSendFailed] = trace w ++ l1 ++ [Done (now w1) c ErrSendFailed]); rewrite E1, app_assoc; reflexivity|].
+      intros _. eapply keep_alive; [|eapply post_alive; [exact G|exact A]]. keep_tac.
+    + destruct G2 as [l1 E1]. exists (l1 ++ [Done (now w1) c ErrOther]). split; [change (trace w1 ++ [Done (now w1) c ErrOther] = trace w ++ l1 ++ [Done (now w1) c ErrOther]); rewrite E1, app_assoc; reflexivity|].
+      rewrite forallb_app. cbn. rewrite andb_false_r. discriminate.
+  - cbn. exists []. rewrite app_nil_r. split; [reflexivity|intros _; exact A].
+  - cbn. eexists. split; [reflexivity|]. intros _. eapply keep_alive; [|exact A].
+    unfold keep. cbn. repeat split; try reflexivity; auto. intros wh s t H. apply filter_keeps_exp_timers; [discriminate|exact H].
+Qed.
+
+Section Env3.
+Variable cmds : cid -> cmdinfo.
+Variable plan : nat -> wplan.
+
+Lemma run_cb_AX w c : AliveL (c :: ready w) w -> RsatOk (AX w) (run_cb cmds plan w c).
+Proof.
+  intros A. pose proof (run_cb_tpre cmds plan w c) as TP.
+  destruct c as [b| |t|t|t|c|n c|n c|c|c|c|e]; cbn [run_cb] in *; try (match goal with |- RsatOk _ (caller_wake _ _) => idtac | _ => apply AX_of; [exact TP|] end).
+  - apply effect_state_alive.
+  - apply (RsatOk_post_alive w); [refine (drop_irrelevant _ _ _ _ A); exact I|apply check_buffer_post].
+  - apply exp_start_alive, A.
+  - apply (exp_timer_alive w t A).
+  - apply exp_wake_alive, A.
+  - apply (RsatOk_post_alive w); [refine (drop_irrelevant _ _ _ _ A); exact I|]. unfold writer_start. destruct (w_lat (plan (nwrites w)) <=? 0).
+    + eapply RsatOk_post_trans; [|apply do_write_post]. apply post_keep. keep_tac.
+    + cbn. apply post_keep. keep_tac.
+  - apply (RsatOk_post_alive w); [refine (drop_irrelevant _ _ _ _ A); exact I|]. cbn. apply post_keep. keep_tac.
+  - apply (RsatOk_post_alive w); [refine (drop_irrelevant _ _ _ _ A); exact I|apply do_write_post].
+  - apply (RsatOk_post_alive w); [refine (drop_irrelevant _ _ _ _ A); exact I|]. destruct (aget CNone c (callers w)); try apply post_refl. apply caller_start_post.
+  - apply (RsatOk_post_alive w); [refine (drop_irrelevant _ _ _ _ A); exact I|apply caller_timer_post].
+  - apply caller_wake_AX. refine (drop_irrelevant _ _ _ _ A); exact I.
+  - apply (RsatOk_post_alive w); [refine (drop_irrelevant _ _ _ _ A); exact I|].
+    destruct e as [k|p| | |d|k]; [cbn; apply post_keep; keep_tac|apply pkt_rcvd_post|apply conn_post|apply conn_post|cbn; apply post_keep; keep_tac|apply caller_cancel_post].
+Qed.
+End Env3.
+
+Lemma ins_due_in lifo e l x : In x (e :: l) -> In x (ins_due lifo e l).
+Proof.
+  destruct e as [[t s] c0]. induction l as [|e' l IH]; [cbn; tauto|].
+  destruct e' as [[t' s'] c']. cbn [ins_due].
+  destruct ((t <? t') || ((t =? t') && (if lifo then Nat.ltb s' s else Nat.ltb s s'))); [tauto|].
+  intros [H|[H|H]]; [right; apply IH; left; exact H|left; exact H|right; apply IH; right; exact H].
+Qed.
+Lemma sort_due_in lifo l x : In x l -> In x (fold_right (ins_due lifo) [] l).
+Proof.
+  induction l as [|e l IH]; cbn; [tauto|]. intros [H|H]; apply ins_due_in; [left; exact H|right; apply IH, H].
+Qed.
+
+(* crossing a batch boundary: due timers become ready callbacks; nothing pending is lost *)
+Lemma boundary_alive lifo w w' : boundary lifo w = Some w' -> Alive w -> Alive w'.
+Proof.
+  unfold boundary.
+  destruct (match ready w with
+            | [] => match min_when (timers w) None with Some t => Some (Z.max t (now w)) | None => None end
+            | _ :: _ => Some (now w) end) as [n|]; [|discriminate].
+  intros [= <-] A. eapply alive_transfer; [exact A|reflexivity|reflexivity| |].
+  - intros b Hb. cbn. apply in_or_app. left. exact Hb.
+  - intros t Et Lt. unfold live in *. cbn. destruct (aget EDone t (exps w)); try exact Lt; try (apply in_or_app; left; exact Lt).
+    destruct Lt as [L|(wh & s & L)]; [left; apply in_or_app; left; exact L|].
+    destruct (wh <=? n) eqn:D.
+    + left. apply in_or_app. right. apply in_map_iff. exists (wh, s, CbExpTimer t). split; [reflexivity|].
+      apply sort_due_in. apply filter_In. split; [exact L|exact D].
+    + right. exists wh, s. apply filter_In. split; [exact L|]. cbn. rewrite D. reflexivity.
+Qed.
+
+Section Env4.
+Variable cmds : cid -> cmdinfo.
+Variable plan : nat -> wplan.
+
+Definition GoodA (w : world) : Prop := clean_tr (trace w) = true -> Alive w.
+
+Lemma step_GoodA lifo w w' : GoodA w -> step cmds plan lifo w = Some w' -> GoodA w'.
+Proof.
+  intros G H Cw'. pose proof (step_tpre cmds plan lifo w w' H) as TP.
+  pose proof (G (clean_tpre _ _ TP Cw')) as A. clear G.
+  unfold step in H. destruct (batch w) as [|b].
+  - eapply boundary_alive; eassumption.
+  - destruct (ready w) as [|c r] eqn:Er.
+    + eapply boundary_alive; eassumption.
+    + set (w0 := upd_loop w (now w) r b (timers w) (seq w)) in *.
+      assert (A0 : AliveL (c :: ready w0) w0) by (unfold Alive in A; rewrite Er in A; exact A).
+      pose proof (run_cb_AX cmds plan w0 c A0) as X.
+      destruct (run_cb cmds plan w0 c) as [w2|n w2]; injection H as <-.
+      * cbn in X. destruct X as (l & E & X). change (trace w0) with (trace w) in E.
+        unfold clean_tr in Cw'. rewrite E, forallb_app in Cw'. apply andb_prop in Cw' as (_ & Cl). exact (X Cl).
+      * exfalso. unfold clean_tr in Cw'. cbn in Cw'. rewrite forallb_app in Cw'. cbn in Cw'. rewrite andb_false_r in Cw'. discriminate.
+Qed.
+
+Lemma run_GoodA lifo fuel : forall w, GoodA w -> GoodA (fst (run cmds plan lifo fuel w)).
+Proof.
+  induction fuel as [|fuel IH]; intros w G; cbn [run]; [exact G|].
+  destruct (step cmds plan lifo w) as [w'|] eqn:E; [|exact G].
+  apply IH. eapply step_GoodA; eassumption.
+Qed.
+
+Lemma GoodA_world0 evs : GoodA (world0 evs).
+Proof. intros _. apply not_sending_alive. reflexivity. Qed.
+
+(* In EVERY run -- any events (calls, packets, connection events, stalls, outside cancels), tie policy, transport behaviour, number of steps -- in which
+   no internal assertion has tripped: while the state machine waits for an echo or a reply, a deferred effect_state or the live expiry task of that
+   wait is pending ... *)
+Theorem always_alive lifo fuel evs :
+  let w := fst (run cmds plan lifo fuel (world0 evs)) in clean_tr (trace w) = true -> Alive w.
+Proof. intros w C. exact (run_GoodA lifo fuel _ (GoodA_world0 evs) C). Qed.
+
+(* ... so once the run has come to rest -- nothing ready to run, no timer armed -- the state machine is not waiting: it is idle, or inactive *)
+Theorem at_rest_not_waiting lifo fuel evs :
+  let w := fst (run cmds plan lifo fuel (world0 evs)) in
+  clean_tr (trace w) = true -> ready w = [] -> timers w = [] -> state (cx w) = Idle \/ state (cx w) = Inactive.
+Proof.
+  intros w C R T. pose proof (always_alive lifo fuel evs C) as A. fold w in A. unfold Alive, AliveL in A. rewrite R in A.
+  destruct (state (cx w)) eqn:S; [right; reflexivity|left; reflexivity| |];
+    (exfalso; destruct (A eq_refl) as [[b []]|(t & _ & L)]; unfold live in L; rewrite T in L;
+     destruct (aget EDone t (exps w)); try exact L; destruct L as [[]|(wh & s & [])]).
+Qed.
+End Env4.
+
+(* the premises are met by ordinary runs that did wait: one command, echoed after 10 ms -- clean, at rest, idle; and by an unanswered one (given up) *)
+Lemma at_rest_nonvacuous :
+  let w := fst (run (cmd_a 0 20000000) echoed false 5000 (world0 [(0, ConnMade); (15625, Call 0%nat)])) in
+  clean_tr (trace w) = true /\ ready w = [] /\ timers w = [] /\ state (cx w) = Idle /\ In (Write 15625 0%nat) (trace w).
+Proof. vm_compute. repeat split; try reflexivity. left. reflexivity. Qed.
+Lemma at_rest_nonvacuous_unanswered :
+  let w := fst (run (cmd_a 3 20000000) silent false 5000 (world0 [(0, ConnMade); (15625, Call 0%nat)])) in
+  clean_tr (trace w) = true /\ ready w = [] /\ timers w = [] /\ state (cx w) = Idle /\ length (trace w) = 5%nat.
+Proof. vm_compute. repeat split; reflexivity. Qed.
